@@ -1,3 +1,6 @@
 import PanqecVerif.Model.Bits
 import PanqecVerif.Model.Code
 import PanqecVerif.Model.Batch
+import PanqecVerif.Proofs.Batch
+import PanqecVerif.Proofs.BatchInv
+import PanqecVerif.Properties.C12
